@@ -5,6 +5,10 @@
             (NewMatcher, route, silence, inhibit rule, API filter): all observed verdicts must be the model's.
    CSil   : matcher sets stored as a silence in a real silence.Silences and asked back through the public path
             (Query with QMatches, Silencer.Mutes, API filter for a single list): every verdict is the model's.
+   CSilN  : several silences alive at once in one store; after Set, after snapshot + restart, and in a second store
+            that received them in one Merge: per store, which silences match the label set, and Silencer.Mutes.
+   CApi   : one API request (GET alerts / alert groups) with filter matchers over several alerts in a given order:
+            per alert, whether the real handler's filter kept it.
    CPrint : a matcher list, with what Matcher.String printed for each and Matchers.String for the list.
    CParse : an input string, with what each parser entry point returned (key, result):
             c1/cN labels.ParseMatcher/ParseMatchers, u1/uN parse.Matcher/Matchers, kc*/ku*/kf* compat.Matcher/
@@ -22,12 +26,16 @@ Inductive case :=
          (obs_m : list (list bool)) (obs_ms : list bool) (obs_set : bool)
 | CSite (tbl : re_table) (m : matcher) (ls : list (string * string)) (obs : list (string * bool))
 | CSil (tbl : re_table) (mss : list (list matcher)) (ls : list (string * string)) (obs : list (string * bool))
+| CSilN (tbl : re_table) (sils : list (list (list matcher))) (ls : list (string * string))
+        (obs_q : list (string * list bool)) (obs_m : list (string * bool))
+| CApi (tbl : re_table) (ms : list matcher) (lss : list (list (string * string))) (obs : list (string * list bool))
 | CPrint (tb : tables) (ms : list matcher) (each : list string) (all : string)
 | CParse (tb : tables) (input : string) (obs : list (string * res (list matcher))).
 
 Inductive shown :=
 | SMatch (m : list (list bool)) (ms : list bool) (set : bool)
 | SSite (b : bool)
+| SMany (v : list bool)
 | SPrint (each : list (list Z)) (all : list Z)
 | SParse (r : list (string * res (list bm))).
 
@@ -70,6 +78,8 @@ Definition show_case (c : case) : shown :=
   | CMatch tbl mss ls _ _ _ => let '(a, b, s) := model_match tbl mss ls in SMatch a b s
   | CSite tbl m ls _ => SSite (m_matches (re_of_table tbl) m (lget ls (m_name m)))
   | CSil tbl mss ls _ => SSite (mset_matches (re_of_table tbl) mss ls)
+  | CSilN tbl sils ls _ _ => SMany (map (fun mss => mset_matches (re_of_table tbl) mss ls) sils)
+  | CApi tbl ms lss _ => SMany (map (fun ls => ms_matches (re_of_table tbl) ms ls) lss)
   | CPrint tb ms _ _ => SPrint (map (fun m => print_b (sp_of tb) (pr_of tb) (bm_of m)) ms)
                                (print_list_b (sp_of tb) (pr_of tb) (map bm_of ms))
   | CParse tb input obs => SParse (map (fun kv => (fst kv, model_parse tb (fst kv) (bytes_of_string input))) obs)
@@ -84,6 +94,12 @@ Definition check_case (c : case) : bool :=
       forallb (fun '(_, b) => beq b v) obs
   | CSil tbl mss ls obs =>
       let v := mset_matches (re_of_table tbl) mss ls in
+      forallb (fun '(_, b) => beq b v) obs
+  | CSilN tbl sils ls oq om =>
+      let v := map (fun mss => mset_matches (re_of_table tbl) mss ls) sils in
+      forallb (fun '(_, b) => beq b v) oq && forallb (fun '(_, b) => beq b (existsb id v)) om
+  | CApi tbl ms lss obs =>
+      let v := map (fun ls => ms_matches (re_of_table tbl) ms ls) lss in
       forallb (fun '(_, b) => beq b v) obs
   | CPrint tb ms each all =>
       beq (map (fun m => print_b (sp_of tb) (pr_of tb) (bm_of m)) ms) (map bytes_of_string each) &&
@@ -127,6 +143,11 @@ Definition prop_case (c : case) : bool :=
       (* a label the set does not carry, or carries with an empty value, is read as the empty string *)
       let re := re_of_table tbl in
       beq (mset_matches re mss ls) (mset_matches re mss (filter (fun kv => negb (String.eqb (snd kv) "")) ls))
+  | CSilN _ _ _ _ _ => true
+  | CApi tbl ms lss _ =>
+      (* an alert's verdict depends on its own labels only: evaluated alone it gets the same verdict *)
+      forallb (fun ls => beq (ms_matches (re_of_table tbl) ms ls)
+                             (forallb (fun m => m_matches (re_of_table tbl) m (lget ls (m_name m))) ms)) lss
   | CPrint tb ms _ _ =>
       let sp := sp_of tb in let pr := pr_of tb in let cp := cp_of tb in
       let bms := map bm_of ms in
